@@ -314,25 +314,46 @@ def oracle_params(rng, n, fails):
     for i in range(n):
         D = rng.choice([2, 3])
         g = Grid(size=(8,) * D)
-        try:
-            count += 1
-            t = S.EulerRotation(g)
-            na = 1 if D == 2 else 3
-            ang = torch.tensor([[rng.uniform(-3.0, 3.0) for _ in range(na)]])
-            if D == 3:
-                ang[0, 1] = rng.uniform(0.1, 3.0)
-            t.angles_(ang)
-            if not close(t.angles(), ang, 1e-6):
-                fails.append({"key": "C08:EulerRotation.angles", "what": "angles_(a); angles() != a", "angles": ang.tolist(), "got": t.angles().tolist()})
-            m = t.tensor()
-            t2 = S.EulerRotation(g)
-            t2.matrix_(m[..., :D, :D])
-            if not close(t2.tensor()[..., :D, :D], m[..., :D, :D], 1e-6):
-                fails.append({"key": "C08:EulerRotation.matrix_", "what": "matrix_(m); tensor() != m", "angles": ang.tolist(), "D": D})
-        except NotImplementedError:
-            pass
-        except Exception as e:  # noqa
-            fails.append({"key": f"C08:EulerRotation:{D}d:raises", "what": f"raises {type(e).__name__}: {str(e)[:100]}", "D": D})
+        # EulerRotation: every order string (both notations), Parameter- and buffer-held angles; the matrix must be
+        # the product in the stated order, and matrix_(R) / matrix(R) must reproduce R where angle extraction exists
+        orders = [None] if D == 2 else [None] + [rng.choice(notations(o)) for o in rng.sample(['XYZ', 'XZY', 'YXZ', 'YZX', 'ZXY', 'ZYX', 'XYX', 'YXY', 'YZY', 'ZYZ'], 3)] + [rng.choice(notations(o)) for o in ("XZX", "ZXZ")]
+        for order in orders:
+            for params in (True, False):
+                okey = "default" if order is None else A.euler_rotation_order(order, ndim=D)
+                try:
+                    count += 1
+                    t = S.EulerRotation(g, params=params, order=order)
+                    na = 1 if D == 2 else 3
+                    ang = torch.tensor([[rng.uniform(-3.0, 3.0) for _ in range(na)]])
+                    if D == 3:
+                        ang[0, 1] = rng.uniform(0.1, 3.0)
+                    t.angles_(ang)
+                    if not close(t.angles(), ang, 1e-5):
+                        fails.append({"key": "C08:EulerRotation.angles", "what": "angles_(a); angles() != a", "angles": ang.tolist(), "got": t.angles().tolist(), "order": order})
+                    m = t.tensor()
+                    if D == 3:
+                        want = torch.eye(3, dtype=torch.float64)
+                        for ch, a in zip(okey if order is not None else "ZXZ", ang[0].double().tolist()):
+                            want = want @ elem(ch, a)
+                        if not close(m[0, :3, :3].double(), want, 1e-5):
+                            fails.append({"key": f"C08:EulerRotation.tensor:{okey}", "what": "tensor() is not the product of the elementary rotations in the order the transform was constructed with",
+                                          "order": order, "angles": ang.tolist()})
+                    for how in ("matrix_", "matrix"):
+                        t2 = S.EulerRotation(g, params=params, order=order)
+                        try:
+                            if how == "matrix_":
+                                t2.matrix_(m[..., :D, :D])
+                            else:
+                                t2 = t2.matrix(m[..., :D, :D])
+                        except NotImplementedError:
+                            continue
+                        if not close(t2.tensor()[..., :D, :D], m[..., :D, :D], 1e-5):
+                            fails.append({"key": f"C08:EulerRotation.{how}:{okey}", "what": f"{how}(R); tensor() != R for a transform constructed with order={order!r}",
+                                          "angles": ang.tolist(), "D": D, "order": order, "params": params})
+                except NotImplementedError:
+                    pass
+                except Exception as e:  # noqa
+                    fails.append({"key": f"C08:EulerRotation:{D}d:raises", "what": f"order={order!r} params={params}: raises {type(e).__name__}: {str(e)[:100]}", "D": D})
         if D == 3:
             count += 1
             try:
